@@ -660,7 +660,36 @@ theorem new_name_resolves {s s' : State} {obj newParent : Nat} {newName : Name}
     localName_alias (e := ⟨s', m⟩) _ hs hcc hc ha
   unfold resolveName
   rw [expand_single_local, hl]
-  exact hobj
+  simp only [hobj]
+
+/-- **old_import_resolves** (true of the code since the `resolveName` repair): a module that imported
+the object *from the module that defines it* — its alias table maps a local name to the OLD
+qualified name — resolves that local name to the moved object: nothing is registered under the old
+name any more, and `resolveName` then follows the alias `reparent` left there (`find_object`). -/
+theorem old_import_resolves {s s' : State} {obj newParent : Nat} {newName : Name}
+    (m : List (Nat × List Nat)) (hI : Inv s) (h : reparent s obj newParent newName = .ok s')
+    {A pnp : Path} (hA : path s obj = some A) (hpnp : path s newParent = some pnp)
+    (hfree : dget s.all (pnp ++ [newName]) = none)
+    (hcont : prefixesAreContainers s A = true)
+    (hnames : ∀ n ∈ A, isSupersededName n = false) :
+    ∀ (scope : Nat) (so : Obj) (y : Name), getObj s' scope = some so →
+      (so.cls = .module ∨ so.cls = .package) → dget so.contents y = none →
+      dget so.aliases y = some A → resolveName ⟨s', m⟩ scope [y] = some obj := by
+  intro scope so y hs hm hc ha
+  have hf := old_name_finds m hI h hA hpnp hfree hcont hnames
+  have hcc : canContainImports so.cls = true := by
+    rcases hm with e | e <;> simp [canContainImports, e]
+  have hl : localName ⟨s', m⟩ (fuelOf ⟨s', m⟩) scope y = some A :=
+    localName_alias (e := ⟨s', m⟩) _ hs hcc hc ha
+  unfold resolveName
+  rw [expand_single_local, hl]
+  cases hO : objFor ⟨s', m⟩ A with
+  | some o =>
+    have h2 : findObject ⟨s', m⟩ A = .obj o := by unfold findObject; rw [hO]
+    rw [hf] at h2
+    injection h2 with h2
+    simp only [hO, h2]
+  | none => simp only [hO, hf]
 
 /-!
 ### The last clause of C07 is FALSE at full strength
@@ -737,15 +766,29 @@ example (m : List (Nat × List Nat)) : objFor ⟨exS', m⟩ [['p','k','g'], ['X'
 def exC : State :=
   modifyObj exS' 4 (fun o => { o with aliases := [(['X'], exOld)] })
 
-/-- **consumer_of_definer_counterexample**: in the example, after the move, the consumer's local
-name `X` (imported from the defining module) expands to the old dotted name and resolves to
-nothing, although `find_object` of that same old name returns the moved class. -/
+/-- `Documentable.resolveName` as it was before the repair: the expanded name is looked up, nothing else -/
+def resolveNameOld (e : Env) (obj : Nat) (name : Path) : Option Nat :=
+  match expandName e obj name with
+  | some p => objFor e p
+  | none => none
+
+/-- **consumer_of_definer_counterexample** (HISTORICAL: the code before the `resolveName` repair,
+`resolveNameOld`): in the example, after the move, the consumer's local name `X` (imported from the
+defining module) expands to the old dotted name and resolved to nothing, although `find_object` of
+that same old name returns the moved class.  With today's `resolveName` the reference resolves. -/
 theorem consumer_of_definer_counterexample :
     expandName ⟨exC, []⟩ 4 [['X']] = some exOld ∧
-    resolveName ⟨exC, []⟩ 4 [['X']] = none ∧
+    resolveNameOld ⟨exC, []⟩ 4 [['X']] = none ∧
     findObject ⟨exC, []⟩ exOld = .obj 2 ∧
     -- before the move the same reference did resolve
-    resolveName ⟨modifyObj exS 4 (fun o => { o with aliases := [(['X'], exOld)] }), []⟩ 4 [['X']] = some 2 := by
+    resolveNameOld ⟨modifyObj exS 4 (fun o => { o with aliases := [(['X'], exOld)] }), []⟩ 4 [['X']] = some 2 ∧
+    -- and today's code resolves it after the move as well
+    resolveName ⟨exC, []⟩ 4 [['X']] = some 2 := by
   decide
+
+/-- non-vacuity of `old_import_resolves`: the consumer of the example -/
+example (m : List (Nat × List Nat)) : findObject ⟨exS', m⟩ exOld = .obj 2 ∧ resolveName ⟨exC, []⟩ 4 [['X']] = some 2 :=
+  ⟨old_name_finds m exS_inv exS_reparent (A := exOld) (pnp := [['p','k','g']])
+    (by decide) (by decide) (by decide) (by decide) (by decide), by decide⟩
 
 end Names
